@@ -36,3 +36,15 @@ func VerifC16_StoreLifetimeAcrossRestart() {
 		zz.Reach("restarted in-process")
 	}
 }
+
+// VerifC01_TransportCompletionError (lemma L3 of C01 under C01's own name): the transport reports
+// a finished response / request to the manager WITHOUT error only if graphsync completed it in
+// full (RequestCompletedFull; an error-free request) - so "own transport finished" means the
+// payload really went through (same bodies as VerifC16_Completed / VerifC16_CompletedRequest).
+func VerifC01_TransportCompletionError() {
+	if zz.Bool("requesterSide") {
+		VerifC16_CompletedRequest()
+	} else {
+		VerifC16_Completed()
+	}
+}
